@@ -62,7 +62,7 @@ class DSDLTemplateLoader(BaseLoader):
         **kwargs: typing.Any,
     ):
         super().__init__(**kwargs)
-        self._type_to_template_lookup_cache: typing.Dict[pydsdl.Any, pathlib.Path] = dict()
+        self._type_to_template_lookup_cache: typing.Dict[typing.Any, typing.Dict[typing.Any, pathlib.Path]] = dict()
 
         if templates_dirs is not None:
             for templates_dir_item in templates_dirs:
@@ -230,15 +230,15 @@ class DSDLTemplateLoader(BaseLoader):
     def _type_to_template_internal(
         self, value_type: typing.Type, templates: typing.Mapping[str, pathlib.Path]
     ) -> typing.Optional[pathlib.Path]:
-        search_queue = collections.deque()  # type: typing.Deque[typing.Any]
+        search_queue = collections.deque([value_type])  # type: typing.Deque[typing.Any]
         discovered = set()  # type: typing.Set[typing.Any]
-        search_queue.appendleft(value_type)
+        cache = self._type_to_template_lookup_cache.setdefault(frozenset(templates), {})  # one memo per template set
         template_path = None
 
         while len(search_queue) > 0:
             current_search_type = search_queue.pop()
             try:
-                template_path = self._type_to_template_lookup_cache[current_search_type]
+                template_path = cache[current_search_type]
                 break
             except KeyError:
                 pass
@@ -250,7 +250,7 @@ class DSDLTemplateLoader(BaseLoader):
                     current_search_type.__name__,
                 )
                 template_path = templates[current_search_type.__name__]
-                self._type_to_template_lookup_cache[current_search_type] = template_path
+                cache[current_search_type] = template_path
                 break
             except KeyError:
                 for base_type in current_search_type.__bases__:
